@@ -7,6 +7,19 @@ CLAIMED = {
    text="Seeded search over fault-injecting decoder sessions (all four option sets, 1-3 decoders, histories of accepted/rejected pictures, size changes, zero sizes, surplus macroblocks, extreme levels, corrupted/random bytes, split and trickled delivery, source I/O faults). Oracle: every call returns Ok or Err; a panic (overflow, index, slice, division, debug_assert - all live under the harness profile), a dead worker, an exhausted read-step budget or a watchdog timeout is a violation. Sampling gives evidence, not proof; the input space is unbounded so nothing stronger is available with this technique.",
    note="Trusted: the harness profile turns every arithmetic overflow / OOB / div-by-zero into a caught panic; inputs declaring more than 2^22 luma samples are screened out (the property's own exclusion); the encoder's VLC tables are frozen from the pinned commit.",
    technique="deterministic simulation: seeded fault-injecting decoder sessions, no-crash / bounded-steps oracle"),
+
+ "C03": dict(level="exploration", design="4.2",
+   text="Step-wise refinement of the real decoder against an independent executable reconstruction model (candidate selection + median, differential wrap, chroma vector rounding, bilinear half-sample interpolation, edge clamping, dequantisation, f64 IDCT, clipping) over seeded histories I (P | truncated P | corrupted | cleanup)*, with truncation after any byte, chunked delivery and EINTR injected. Every accepted picture is compared sample for sample, starting each step from the real decoder's previous output. Seeded search, so evidence not proof; the space of P pictures x references is unbounded.",
+   note="Trusted: model P (written from the Recommendation), the frozen VLC tables, the stated rounding tolerance (counted per run). Histories contain no disposable pictures (C04 decides which picture is the reference).",
+   technique="deterministic simulation: seeded decoder histories with truncation/EINTR faults, refinement against an executable reference model"),
+ "C05": dict(level="fault_enumeration", design="4.4",
+   text="For each seeded scenario (history, valid victim picture, valid continuation) the faults are enumerated exhaustively: a hard I/O error at every source-read index (chained retries on the same reader), EINTR on every other read, every split point of the victim across two deliveries, one semantic poison per parsing depth (header, macroblock header, block data, prediction) and a sample of bit flips. After every failed call the decoder state must be bit-identical, the reader must still be at the start of the picture, the retry must equal a clean decode and the continuation must equal a twin decoder that never saw a failure.",
+   note="Twin oracle: the same decoder on both sides, so it decides atomicity/consistency, not absolute correctness. Splits the decoder legitimately accepts as an early-ended picture are counted, not judged.",
+   technique="deterministic simulation: exhaustive fault-position enumeration per seeded scenario against a fault-free twin"),
+ "C14": dict(level="exploration", design="4.6",
+   text="Seeded operation histories over the real H263Reader (peek/read/signed/skip at widths 0..66 into seven integer types, read_vlc over generated tables, start-code recognition, commit, nested transactions / unions / look-aheads ending Ok/Err/None) on a source that delivers bytes late and injects EINTR and hard I/O errors, compared operation by operation with a bit-vector model; plus a systematic sweep of every start phase x operation x width.",
+   note="Trusted: model R (a bit vector and a position). read_vlc always runs inside a transaction (its position after an error is documented as undefined). Start-code oracle is exactly as loose as the statement.",
+   technique="deterministic simulation: seeded reader operation histories with late delivery and I/O faults against a bit-vector reference model"),
 }
 
 NOT_APPLICABLE = {
@@ -21,7 +34,7 @@ NOT_APPLICABLE = {
  "C16": "Pure function of (size, strength) plus a constant table; no state, no I/O, no schedule.",
 }
 
-PENDING = {k: 'check under construction (claimed in DESIGN.md; not yet registered)' for k in ['C03','C04','C05','C13','C14','C15','C17']}  # id -> reason, for properties whose check is still under construction
+PENDING = {k: 'check under construction (claimed in DESIGN.md; not yet registered)' for k in ['C04','C13','C15','C17']}  # id -> reason, for properties whose check is still under construction
 
 def main():
     hooks_commits = subprocess.check_output(["git","-C","/repo","log","--format=%H %s"],text=True).splitlines()
